@@ -792,6 +792,7 @@ func extractC07(c *ctxT) {
 	sort.Strings(fns)
 	fmt.Fprintf(&sb, "/-- functions reachable from `Keeper.EndBlocker` (name-based call graph) -/\ndef endBlockerFns : List String := %s\n\n", leanList(fns))
 	c07GovFacts(c, &sb)
+	c07EscrowFacts(c, &sb)
 	c07AppFacts(c, &sb)
 	sb.WriteString("end FxVerif.Gen.C07\n")
 	c.write("C07.lean", sb.String())
